@@ -65,6 +65,7 @@ func worker() {
 	}
 	c := bx.New(*fProp, *fTier, *fShard, *fN, *fSeed, dl)
 	c.Instr = props.InstrBuild
+	props.SetCtx(c)
 	p.Run(c)
 	if err := c.WriteResult(*fOut); err != nil {
 		fmt.Fprintln(os.Stderr, "write result:", err)
@@ -177,7 +178,7 @@ func drive() int {
 			defer wg.Done()
 			resf := filepath.Join(tmp, fmt.Sprintf("res.%d.json", i))
 			markf := filepath.Join(tmp, fmt.Sprintf("mark.%d", i))
-			args := []string{"-c", `ulimit -v 6291456 2>/dev/null; exec "$0" "$@"`, bin, "-worker", "-prop", *fProp, "-tier", tier,
+			args := []string{"-c", `ulimit -v 3145728 2>/dev/null; exec "$0" "$@"`, bin, "-worker", "-prop", *fProp, "-tier", tier,
 				"-shard", strconv.Itoa(i), "-n", strconv.Itoa(n), "-out", resf, "-seed", strconv.FormatInt(seed, 10),
 				"-deadline", strconv.FormatInt(deadline.Unix(), 10)}
 			cmd := exec.Command("sh", args...)
@@ -202,7 +203,7 @@ func drive() int {
 			lg.Close()
 			lb, _ := os.ReadFile(lg.Name())
 			if len(lb) > 3000 {
-				lb = lb[len(lb)-3000:]
+				lb = append(append(append([]byte{}, lb[:1500]...), []byte("\n...\n")...), lb[len(lb)-1500:]...)
 			}
 			out[i].log = string(lb)
 			out[i].mark = markf
@@ -233,7 +234,10 @@ func drive() int {
 		if out[i].err != nil {
 			entry, input, ok := bx.ReadMark(out[i].mark)
 			tot.Exhaustive = false
-			if ok && p.DeathIsViolation {
+			if !ok {
+				entry, input = "unknown-call", nil
+			}
+			{
 				key := *fProp + "/worker-death/" + entry
 				fm[key] = &bx.Finding{Key: key, Count: 1,
 					What: fmt.Sprintf("worker process died (%v) while executing %s on %d input octets (fatal runtime error: out of memory, stack overflow or throw)", out[i].err, entry, len(input)),
@@ -242,8 +246,6 @@ func drive() int {
 				tot.Notes = append(tot.Notes, fmt.Sprintf("shard %d died; the rest of its cases were not explored", i))
 				continue
 			}
-			harnessErr = fmt.Sprintf("worker %d failed: %v\n%s", i, out[i].err, out[i].log)
-			continue
 		}
 		r := out[i].res
 		tot.States += r.States
